@@ -264,6 +264,10 @@ def ws_reader(facts, R):
     for i, t in bs:
         fs = facts_at(worker, wsym, facts, i)
         some = any(f["val"] == "Some" for f in fs)
+        if not some:
+            # the enqueue may be entered through several edges (the Some value built on one path, tested on another)
+            alts = path_facts(worker, wsym, facts, i)
+            some = bool(alts) and all(any(f["val"] == "Some" for f in alt) for alt in alts)
         R.check(some and not _in_cycle(worker, i), "response-count", worker.path, "off-reader response enqueued iff Some, once",
                 "blocking_send under %s" % [x[-60:] for x in texts(fs)], t.get("span"), "guarded by response is Some")
         st = [(x, y) for x, y in worker.calls() if callee_matches(y["callee"], "message::stamp_response_query") and worker.dominates(x, i)]
